@@ -160,3 +160,18 @@ Print Assumptions c01_roundtrip.
 Print Assumptions c01_bytes_schedule_independent.
 Print Assumptions c01_chunks_are_whole_frames.
 Print Assumptions c01_transport_in_contract.
+
+(* the constants written by hand in the models equal the ones regenerated from the Rust source
+   (Gen/ConstTables.v, rewritten by rs2v on every run): prefix size, default receiving limit
+   4 MiB, default sending limit usize::MAX, default buffer settings *)
+From Verif Require Gen.ConstTables Proofs.ConstTies.
+Import Gen.ConstTables.
+Theorem c01_constants_tied :
+  Frame.HEADER_SIZE = codec_header_size /\
+  Decoder.DEFAULT_MAX_RECV_MESSAGE_SIZE = codec_default_max_recv_message_size /\
+  Encoder.DEFAULT_MAX_SEND_MESSAGE_SIZE = codec_default_max_send_message_size /\
+  Encoder.DEFAULT_CODEC_BUFFER_SIZE = codec_default_buffer_size /\
+  Encoder.DEFAULT_YIELD_THRESHOLD = codec_default_yield_threshold /\
+  Encoder.val_application_grpc = grpc_content_type.
+Proof. exact ConstTies.codec_constants_tied. Qed.
+Print Assumptions c01_constants_tied.
